@@ -851,6 +851,22 @@ def misc_group():
     g.kernel("xy2lat", Q4, xy(0))
     g.kernel("xy2lon", Q4, xy(1))
 
+    # source-area base functions (element-wise in X, Y)
+    def base(name, has_wind):
+        def f():
+            env = dict(X=var("x", "R"), Y=var("y", "R"))
+            al = {"meas_pt": E("tuple", "T", [var("xm", "R"), var("ym", "R")])}
+            if has_wind:
+                al["wind"] = E("tuple", "T", [var("u", "R"), var("v", "R")])
+            ex = simple_fn(os.path.join(REPO_SRC, "utils.py"), name, env, al)
+            return ret_component(ex)
+        return f
+    B4 = [("x", "R"), ("y", "R"), ("xm", "R"), ("ym", "R")]
+    g.kernel("baseCircular", B4, base("source_area_circular", False))
+    g.kernel("baseUpwind", B4 + [("u", "R"), ("v", "R")], base("source_area_upwind", True))
+    g.kernel("baseCrosswind", B4 + [("u", "R"), ("v", "R")], base("source_area_crosswind", True))
+    g.kernel("baseSector", B4 + [("u", "R"), ("v", "R")], base("source_area_sector", True))
+
     # TowerConfig.compute_local_xy forwards (lat, lon, ref_lat, ref_lon) in this order
     try:
         tree = ast.parse(open(os.path.join(REPO_SRC, "config_parser.py")).read())
@@ -1001,6 +1017,22 @@ def tables_group():
         g.report["levelStore"] = "ok"
     except Exception as e:  # noqa: BLE001
         g.report["levelStore"] = "FAILED: %r" % (e,)
+    # C20: the statement sequences of get_source_area and extract_percentile_contour (canonical text)
+    try:
+        def body_text(path, name):
+            fn = load_fn(path, name)
+            out = []
+            for st in fn.body:
+                if isinstance(st, ast.Expr) and isinstance(st.value, ast.Constant):
+                    continue  # docstring
+                out.append(ast.unparse(st).replace("\n", " "))
+            return out
+        lines.append("def sourceAreaSteps : List String := %s" % lean_strs(body_text(os.path.join(REPO_SRC, "utils.py"), "get_source_area")))
+        lines.append("def percentileSteps : List String := %s" % lean_strs(
+            body_text(os.path.join(REPO_SRC, "plotting", "footprint.py"), "extract_percentile_contour")))
+        g.report["sourceAreaSteps"] = "ok"
+    except Exception as e:  # noqa: BLE001
+        g.report["sourceAreaSteps"] = "FAILED: %r" % (e,)
     g.defs = [l + "\n" for l in lines]
     g.write_raw()
     return g
